@@ -332,6 +332,23 @@ def gen_reshape(rng):
     return {'op': 'unstack', 'f': g, 'fill': rand_fill(rng)}
 
 
+def gen_unstack3(rng):
+    '''unstack the innermost level of a depth-3 index (two levels remain): a valid tree whose middle labels come in different relative orders under
+    different outer labels, ragged below them; every cell must stay under its own (outer, middle) row and (column, inner) column'''
+    outers = rng.sample(['a', 'b', 'c'], rng.randint(1, 3))
+    rows = []
+    for o in outers:
+        for m in rng.sample(['x', 'y', 'z'], rng.randint(1, 3)):
+            for k in rng.sample([1, 2, 3], rng.randint(1, 3)):
+                rows.append(['t', [['s', o], ['s', m], ['i', k]]])
+    rows = rows[:7]
+    n = len(rows)
+    nc = rng.randint(1, 2)
+    cols = [{'dt': ANY, 'vals': [['i', 10 * j + i] for i in range(n)]} for j in range(nc)]
+    f = {'index': rows, 'columns': [['s', 'pq'[j]] for j in range(nc)], 'cols': cols, 'name': ['none']}
+    return {'op': 'unstack', 'f': f, 'fill': rand_fill(rng)}
+
+
 def gen_stack_h(rng):
     '''two-level columns (outer group, inner field), groups sharing some inner labels; columns of one group may have the same kind in
     different widths (text of 1 and of 6 characters, short and long numbers): stacking must not narrow any cell'''
@@ -361,6 +378,8 @@ def gen_case(rng):
     q = rng.random()
     if q < 0.04:
         return gen_stack_h(rng), None
+    if q < 0.08:
+        return gen_unstack3(rng), None
     cs = gen_pivot(rng) if q < 0.4 else gen_join(rng) if q < 0.7 else gen_reshape(rng)
     lay = C.rand_layout(rng, realise(cs['f']))
     if 'g' in cs:
